@@ -248,23 +248,26 @@ func TestZZVerifC06Server(t *testing.T) {
 				qi   int
 				min  uint64
 				done chan uint64
+				fp   chan string
 			}
 			var parks []parked
 			park := func(qi int) {
 				if prev[qi].err != "" || prev[qi].idx == 0 {
 					return
 				}
-				p := parked{qi, prev[qi].idx, make(chan uint64, 1)}
+				p := parked{qi, prev[qi].idx, make(chan uint64, 1), make(chan string, 1)}
 				q := qs[qi]
 				go func() {
 					r := q.reply()
 					// its own timeout is far beyond the bound used below: a parked call that comes back
 					// was woken by the write, not by MaxQueryTime
 					if err := srv.RPC(context.Background(), q.meth, q.args(p.min, 90*time.Second), r); err != nil {
+						p.fp <- ""
 						p.done <- 0
 						return
 					}
-					i, _ := zv6Meta(r)
+					i, fp := zv6Meta(r)
+					p.fp <- fp
 					p.done <- i
 				}()
 				parks = append(parks, p)
@@ -324,6 +327,15 @@ func TestZZVerifC06Server(t *testing.T) {
 				select {
 				case got := <-p.done:
 					run.Count("server-blocking-rpcs-released")
+					// the reply a woken call carries is the result at the index it reports: a fresh read that
+					// reports the same index must have the same content
+					if wfp := <-p.fp; got == prev[p.qi].idx && got > p.min {
+						run.Count("server-woken-replies-compared-with-fresh-read")
+						if wfp != prev[p.qi].fp {
+							run.Violation("C06:server:blocking-rpc:woken-reply-differs-from-fresh-read:"+qs[p.qi].meth, fmt.Sprintf("%s blocked at index %d was woken by %s and returned index %d with a reply that differs from a fresh read reporting the same index", qs[p.qi].name, p.min, desc, got),
+								map[string]any{"log": log, "woken_reply": trunc6(wfp, 1200), "fresh_read": trunc6(prev[p.qi].fp, 1200)})
+						}
+					}
 					if got <= p.min {
 						run.Violation("C06:server:blocking-rpc:returned-without-larger-index:"+qs[p.qi].meth, fmt.Sprintf("%s blocked at index %d returned index %d after %s changed its result", qs[p.qi].name, p.min, got, desc), map[string]any{"log": log})
 					}
@@ -340,6 +352,7 @@ func TestZZVerifC06Server(t *testing.T) {
 	run.Floor("server-reply-changes", 400)
 	run.FloorDistinct("server-endpoint-with-change", 10)
 	run.Floor("server-blocking-rpcs-released", 5)
+	run.Floor("server-woken-replies-compared-with-fresh-read", 5)
 	run.Floor("server-blocking-rpcs-parked-on-written-subject", 20)
 	if run.Finish() == 1 {
 		t.Fail()
